@@ -235,6 +235,15 @@ impl Scenario for C17 {
             spec.aux = vec![rng.below(5)];
             return spec;
         }
+        if rng.chance(1, if _tier == Tier::Quick { 130 } else { 1_300 }) {
+            // seeding sweep: 2^16 never-used generators of one type from unrelated seeds, every text must equal the
+            // first one's. aux = [type, key, n]
+            spec.variant = "debug_seed_sweep".into();
+            spec.kind = Some(Kind::Hc128);
+            let ty = *rng.pick(&[0u64, 0, 0, 0, 1, 1, 2, 3, 4]);
+            spec.aux = vec![ty, rng.u64(), 1 << 16];
+            return spec;
+        }
         if rng.chance(1, if _tier == Tier::Quick { 470 } else { 4_700 }) {
             // block marathon: two HC-128 cores with different keys, the text compared after EVERY block (a text
             // that reflects what one block left in the tables - a zero table word: 2^-28 per block - shows for
@@ -297,7 +306,7 @@ impl Scenario for C17 {
                     let tail = gen_plain_clock(rng, 400);
                     let first = tail.readings.first().copied().unwrap_or(0);
                     readings.extend(tail.readings.iter().map(|x| last.wrapping_add(x.wrapping_sub(first)).wrapping_add(97)));
-                    spec.clock = Some(crate::seams::clock::ClockSpec { readings, tail_key: tail.tail_key, fork_skews: vec![], freeze: None });
+                    spec.clock = Some(crate::seams::clock::ClockSpec { readings, tail_key: tail.tail_key, fork_skews: vec![], freeze: None, abort_at: None });
                     spec.rounds = Some(r as u8);
                     spec.ops.insert(0, Op::U64);
                     spec.variant = "gen_crafted_value".into();
@@ -325,6 +334,20 @@ impl Scenario for C17 {
             self.run_marathon(spec, st)
         } else if spec.variant == "core_block_marathon" {
             self.run_block_marathon(spec, st)
+        } else if spec.variant == "debug_seed_sweep" {
+            let (ty, key, n) = (spec.aux[0], spec.aux[1], spec.aux[2] as usize);
+            let name = ["Hc128Rng", "Hc128Core", "IsaacRng", "Isaac64Rng", "XorShiftRng"][(ty as usize).min(4)];
+            st.add("probe:seed_sweep_texts_compared", n as u64);
+            st.sig(&[4545, ty]);
+            match sut(crate::gens::debug_seed_sweep(ty, key, n), "construct/debug") {
+                Ok(Some((i, a, b))) => Err(E::End(viol(
+                    "C17/debug_depends_on_secret",
+                    format!("{}:debug", name),
+                    format!("{} never used: Debug text differs between two generators built from different seeds (seed 0 and seed {} of the sweep): {:?} vs {:?}", name, i, trunc(&a), trunc(&b)),
+                ))),
+                Ok(None) => Ok(()),
+                Err(e) => Err(e),
+            }
         } else {
             self.run_gen(spec, st)
         };
@@ -334,7 +357,7 @@ impl Scenario for C17 {
         }
     }
     fn rule(&self) -> String {
-        "Each run: twin generators of one state-hiding type (XorShiftRng, Hc128Rng, IsaacRng, Isaac64Rng, JitterRng; or the cores Hc128Core, IsaacCore, Isaac64Core) with DIFFERENT secrets (seed through any route; for JitterRng a different clock script) and the SAME public history (pre-advance, next_u32/next_u64/fill_bytes ops, so the same read position). After construction and after every operation {:?} and {:#?} of both must be byte-equal, and no decimal or hexadecimal token of the text may equal a state word (bincode image where available), a buffered/next output word (a clone's next two blocks) or a just-returned value >= 100000. distinct_nontrivial = distinct (type, buffer index, op kind) signatures at which the texts were compared. Histories also contain non-output operations applied to both twins (timer_stats, set_rounds incl. the contained set_rounds(0), test_timer, clone, snapshot/restore, ==). Texts are produced under every formatter flag ({:x?}, {:#X?}, {:+?}, width/precision/padding), and in one run out of three additionally while the thread unwinds from a harness-raised panic or on another thread. Extra passes: a build with --cfg fuzzing; a pass in which every ALL_CAPS token found in the compiled crates is set as an environment variable. Core runs: before each generate() both owners' results buffers are primed with the same public content (what the previous call left, the block the first or the second twin is about to produce - taken from a clone -, zeros, all ones). (core_block_marathon) two Hc128Core with different keys produce 2^23 blocks each, the {:?} text is compared after every generate().".into()
+        "Each run: twin generators of one state-hiding type (XorShiftRng, Hc128Rng, IsaacRng, Isaac64Rng, JitterRng; or the cores Hc128Core, IsaacCore, Isaac64Core) with DIFFERENT secrets (seed through any route; for JitterRng a different clock script) and the SAME public history (pre-advance, next_u32/next_u64/fill_bytes ops, so the same read position). After construction and after every operation {:?} and {:#?} of both must be byte-equal, and no decimal or hexadecimal token of the text may equal a state word (bincode image where available), a buffered/next output word (a clone's next two blocks) or a just-returned value >= 100000. distinct_nontrivial = distinct (type, buffer index, op kind) signatures at which the texts were compared. Histories also contain non-output operations applied to both twins (timer_stats, set_rounds incl. the contained set_rounds(0), test_timer, clone, snapshot/restore, ==). Texts are produced under every formatter flag ({:x?}, {:#X?}, {:+?}, width/precision/padding), and in one run out of three additionally while the thread unwinds from a harness-raised panic or on another thread. Extra passes: a build with --cfg fuzzing; a pass in which every ALL_CAPS token found in the compiled crates is set as an environment variable. Core runs: before each generate() both owners' results buffers are primed with the same public content (what the previous call left, the block the first or the second twin is about to produce - taken from a clone -, zeros, all ones). (core_block_marathon) two Hc128Core with different keys produce 2^23 blocks each, the {:?} text is compared after every generate(). (debug_seed_sweep) 2^16 never-used generators of one type from unrelated seeds: every {:?} text must equal the first one's.".into()
     }
     fn assumptions(&self) -> Vec<String> {
         vec!["words below 100000 are not searched for (chance hits on index / result_len)".into()]
